@@ -54,6 +54,7 @@ def plan(tier, seed):
     heavy += [{'cls': 'oversize', 'n': n} for n in ((LIMIT + 65 + 900, 20000) if tier == 'quick' else (LIMIT + 65 + 900, 20000, 30000, 66000, 70000))]
     heavy += [{'cls': 'oversize', 'n': 21000, 'entry': 'build', 'dest_exists': False}, {'cls': 'oversize', 'n': 24000, 'entry': 'build', 'dest_exists': True}]
     heavy += [{'cls': 'repetitive_big', 'n': n} for n in ((20000,) if tier == 'quick' else (20000, 40000, 65535))]
+    heavy += [{'cls': 'repetitive_big', 'n': 20000, 'unit': 0}, {'cls': 'repetitive_big', 'n': 30000, 'unit': 2}]
     if tier == 'thorough':
         heavy = heavy + [dict(h) for h in heavy if h['cls'] in ('incompressible', 'near_compressed')]
     nsh = 16
@@ -90,7 +91,9 @@ def make_code(rng, c):
     if cls == 'repetitive_small':
         return b'x=1\n' * rng.randint(50, 1200)
     if cls == 'repetitive_big':
-        unit = rng.choice((b'x=1\n', b'print("abc")\n'))
+        # (with the first unit the code has far more than 8192 tokens - PICO-8's limit for RUNNING a cart, which the statement does
+        # not mention: the code fits the code area, so the cart is written)
+        unit = (b'x=1\n', b'print("abc")\n', b'a,b=b,a ')[c.get('unit', rng.randrange(2))]
         return unit * (c['n'] // len(unit))
     if cls == 'update60_raw':
         # code that mentions _update60 and does not shrink: it is stored as it is
